@@ -12,6 +12,7 @@ import (
 	"math/big"
 	"runtime/debug"
 	"sort"
+	"sync/atomic"
 	"time"
 
 	"github.com/kardiachain/go-kardia/configs"
@@ -55,21 +56,174 @@ func (t *VerifTicker) Chan() <-chan timeoutInfo { return t.nilCh }
 func (t *VerifTicker) SetLogger(log.Logger)     {}
 func (t *VerifTicker) ScheduleTimeout(newti timeoutInfo) {
 	ti := t.last
-	// transcription of timeoutTicker.timeoutRoutine's "ignore tickers for old height/round/step"
-	if newti.Height < ti.Height {
-		return
-	} else if newti.Height == ti.Height {
-		if newti.Round < ti.Round {
+	if rule := verifTickerRule.Load(); rule != nil {
+		// the supersede rule MEASURED on the real timeoutTicker of this tree (VerifMeasureTicker)
+		if !(*rule)[verifTickerKey(ti, newti)] {
 			return
-		} else if newti.Round == ti.Round {
-			if ti.Step > 0 && newti.Step <= ti.Step {
+		}
+	} else {
+		// transcription of timeoutTicker.timeoutRoutine's "ignore tickers for old height/round/step"
+		if newti.Height < ti.Height {
+			return
+		} else if newti.Height == ti.Height {
+			if newti.Round < ti.Round {
 				return
+			} else if newti.Round == ti.Round {
+				if ti.Step > 0 && newti.Step <= ti.Step {
+					return
+				}
 			}
 		}
 	}
 	t.last = newti
 	c := newti
 	t.pending = &c
+}
+
+// ---------------------------------------------------------------------------------------------
+// binding VerifTicker to the real ticker: the supersede rule is measured on consensus.NewTimeoutTicker()
+
+var verifTickerRule atomic.Pointer[map[string]bool]
+
+func verifClampDiff(a, b uint64) int {
+	switch {
+	case a+1 < b:
+		return -2
+	case a < b:
+		return -1
+	case a > b+1:
+		return 2
+	case a > b:
+		return 1
+	}
+	return 0
+}
+
+// verifTickerKey is the class of (old, new) the rule is measured per: height and round differences clamped to
+// [-2, 2], and the exact pair of steps.
+func verifTickerKey(old, newti timeoutInfo) string {
+	return fmt.Sprintf("h%+d r%+d s%d>%d", verifClampDiff(newti.Height, old.Height), verifClampDiff(uint64(newti.Round), uint64(old.Round)), old.Step, newti.Step)
+}
+
+// VerifTranscribedTickerRule is the rule as transcribed from ticker.go at the pinned commit (for the record only).
+func VerifTranscribedTickerRule() map[string]bool {
+	out := map[string]bool{}
+	for dh := -2; dh <= 2; dh++ {
+		for dr := -2; dr <= 2; dr++ {
+			for os := 1; os <= 8; os++ {
+				for ns := 1; ns <= 8; ns++ {
+					acc := true
+					if dh < 0 || (dh == 0 && dr < 0) || (dh == 0 && dr == 0 && ns <= os) {
+						acc = false
+					}
+					out[fmt.Sprintf("h%+d r%+d s%d>%d", dh, dr, os, ns)] = acc
+				}
+			}
+		}
+	}
+	return out
+}
+
+// VerifMeasureTicker runs, for each of the 1600 classes of (old timeout, new timeout), two experiments on fresh
+// REAL tickers: A = old(1h) then new(0): a tock for new means "accepted"; B = old(400ms) then new(1h): a tock for
+// old means "ignored". Exactly one of them produces a tock; which one is observed positively (no verdict rests
+// on the absence of an event within a short time). problems lists: a first timeout that never fires, a tock whose
+// content differs from what was scheduled, an order type for which neither/both experiments fire within the
+// watchdog. The caller decides what a problem means.
+func VerifMeasureTicker(watchdog time.Duration) (rule map[string]bool, problems []string) {
+	rule = map[string]bool{}
+	// basic: the first timeout scheduled on a fresh ticker fires and carries what was scheduled
+	{
+		tk := NewTimeoutTicker()
+		tk.SetLogger(log.New())
+		tk.Start()
+		want := timeoutInfo{Duration: 0, Height: 1, Round: 0, Step: cstypes.RoundStepNewHeight}
+		tk.ScheduleTimeout(want)
+		select {
+		case got := <-tk.Chan():
+			if got != want {
+				problems = append(problems, fmt.Sprintf("first-timeout-content: scheduled %v, fired %v", want, got))
+			}
+		case <-time.After(watchdog):
+			problems = append(problems, "first-timeout-never-fires")
+			return nil, problems
+		}
+	}
+	type res struct {
+		key      string
+		accepted bool
+		note     string
+	}
+	ch := make(chan res, 1600)
+	n := 0
+	for dh := -2; dh <= 2; dh++ {
+		for dr := -2; dr <= 2; dr++ {
+			for os := 1; os <= 8; os++ {
+				for ns := 1; ns <= 8; ns++ {
+					n++
+					go func(dh, dr, os, ns int) {
+						old := timeoutInfo{Height: 5, Round: 5, Step: cstypes.RoundStepType(os)}
+						nw := timeoutInfo{Height: uint64(5 + dh), Round: uint32(5 + dr), Step: cstypes.RoundStepType(ns)}
+						key := verifTickerKey(old, nw)
+						for attempt := 0; ; attempt++ {
+							a, b := NewTimeoutTicker(), NewTimeoutTicker()
+							a.SetLogger(log.New())
+							b.SetLogger(log.New())
+							a.Start()
+							b.Start()
+							oa, na := old, nw
+							oa.Duration, na.Duration = time.Hour, 0
+							a.ScheduleTimeout(oa)
+							a.ScheduleTimeout(na)
+							ob, nb := old, nw
+							ob.Duration, nb.Duration = 400*time.Millisecond*time.Duration(1<<uint(attempt)), time.Hour
+							t0 := time.Now()
+							b.ScheduleTimeout(ob)
+							b.ScheduleTimeout(nb)
+							if time.Since(t0) > ob.Duration/4 && attempt < 4 {
+								continue // the two schedules of B were not close together: the experiment says nothing
+							}
+							select {
+							case got := <-a.Chan():
+								if got != na {
+									ch <- res{key, true, fmt.Sprintf("tock-content: scheduled %v, fired %v", na, got)}
+								} else {
+									ch <- res{key, true, ""}
+								}
+							case got := <-b.Chan():
+								if got != ob {
+									ch <- res{key, false, fmt.Sprintf("tock-content: scheduled %v, fired %v", ob, got)}
+								} else {
+									ch <- res{key, false, ""}
+								}
+							case <-time.After(watchdog):
+								ch <- res{key, false, "no-tock-in-either-experiment"}
+							}
+							return
+						}
+					}(dh, dr, os, ns)
+				}
+			}
+		}
+	}
+	for i := 0; i < n; i++ {
+		r := <-ch
+		rule[r.key] = r.accepted
+		if r.note != "" {
+			problems = append(problems, r.key+": "+r.note)
+		}
+	}
+	sort.Strings(problems)
+	return rule, problems
+}
+
+// VerifInstallTickerRule makes every VerifTicker of this process follow the given (measured) rule.
+func VerifInstallTickerRule(rule map[string]bool) {
+	if rule == nil {
+		verifTickerRule.Store(nil)
+		return
+	}
+	verifTickerRule.Store(&rule)
 }
 
 // VerifTimeout is the exported view of a pending timeout.
